@@ -239,8 +239,20 @@ func runSyncCase(seed int64, thorough bool) (*syncInput, Res) {
 			}
 		}
 		hasTag := r.Intn(2) == 0
+		tagOnRoot := false
 		if hasTag {
 			h, _ := ref.GetHead(srs, "main")
+			if common >= 2 && (r.Intn(3) == 0 || (in.ClockSkew && r.Intn(2) == 0)) {
+				// the tag sits on the first commit of the history (which a shallow clone holds without its table)
+				for {
+					hc, err := objects.GetCommit(sdb, h)
+					if err != nil || len(hc.Parents) == 0 {
+						break
+					}
+					h = hc.Parents[0]
+				}
+				tagOnRoot = true
+			}
 			ref.SaveTag(srs, "v1", h)
 		}
 		hasDev := r.Intn(2) == 0
@@ -282,10 +294,12 @@ func runSyncCase(seed int64, thorough bool) (*syncInput, Res) {
 		if out, err := cli(dir, pullArgs...); err != nil {
 			return Res{"res": "err", "kind": "setup-pull:" + out + ":" + err.Error()}
 		}
+		tagFetched := false
 		if hasTag && r.Intn(4) != 0 {
 			if out, err := cli(dir, "fetch", "origin", "refs/tags/*:refs/tags/*"); err != nil {
 				return Res{"res": "err", "kind": "setup-fetch-tags:" + out + ":" + err.Error()}
 			}
+			tagFetched = true
 		}
 		if hasDev {
 			if out, err := cli(dir, "fetch", "origin", "refs/heads/"+dev+":refs/remotes/origin/"+dev); err != nil {
@@ -337,6 +351,11 @@ func runSyncCase(seed int64, thorough bool) (*syncInput, Res) {
 			// local side moved; in half of these the remote-tracking ref has been lost (see below)
 			in.Relation = []string{"equal", "rewound", "local-ahead"}[r.Intn(3)]
 			refsLost = r.Intn(2) == 0
+		} else if in.ShallowClone && tagOnRoot && tagFetched && r.Intn(3) != 0 {
+			// the remote branch is reset to the tagged root (shallow locally) and continues from there with a
+			// commit that re-uses the root's table; the only have the remote can recognise is that shallow commit
+			in.Action = "fetch"
+			in.Relation = "rewound-to-root"
 		} else if in.ShallowClone && r.Intn(2) == 0 {
 			// a shallow clone fetching new history whose tip re-uses the table of a commit that is
 			// shallow locally (a revert): the sender must not take that table for present
@@ -359,6 +378,15 @@ func runSyncCase(seed int64, thorough bool) (*syncInput, Res) {
 			// the remote branch is replaced by an unrelated history
 			srs.Delete("heads/main")
 			nRemote = 1 + r.Intn(2)
+		case "rewound-to-root":
+			if tsum, err := ref.GetRef(srs, "tags/v1"); err == nil {
+				if tc, err := objects.GetCommit(sdb, tsum); err == nil {
+					ref.CommitHead(srs, "main", tsum, tc, nil)
+					if err := opCommit(baseTables[0].CSV(0), baseTables[0].PK, 1, "main")(sdb, srs); err != nil {
+						return Err("server-commit-root")
+					}
+				}
+			}
 		case "rewound":
 			// the remote branch is reset to its parent (a non-fast-forward whose new value is an ancestor)
 			h, _ := ref.GetHead(srs, "main")
